@@ -432,3 +432,116 @@ pub fn printable(prog: &[S]) -> bool {
     }
     blk(prog)
 }
+
+// ---------------------------------------------------------------------------------------
+// statement positions (for mapping a diagnostic span back to the harness AST)
+// ---------------------------------------------------------------------------------------
+
+fn mark_block(b: &[S], out: &mut Vec<Tok>, marks: &mut Vec<usize>) {
+    for s in b {
+        marks.push(out.len());
+        match s {
+            S::If(c, t, e) => {
+                words(out, &["if", "to", "say"]);
+                p(out, "(");
+                expr_toks(c, out);
+                p(out, ")");
+                w(out, "start");
+                mark_block(t, out, marks);
+                w(out, "end");
+                if let Some(e) = e {
+                    words(out, &["if", "not", "so"]);
+                    w(out, "start");
+                    mark_block(e, out, marks);
+                    w(out, "end");
+                }
+            }
+            S::Loop(c, b) => {
+                w(out, "jasi");
+                p(out, "(");
+                expr_toks(c, out);
+                p(out, ")");
+                w(out, "start");
+                mark_block(b, out, marks);
+                w(out, "end");
+            }
+            S::Block(b) => {
+                w(out, "start");
+                mark_block(b, out, marks);
+                w(out, "end");
+            }
+            S::Func(name, params, body) => {
+                w(out, "do");
+                w(out, name);
+                p(out, "(");
+                for (i, q) in params.iter().enumerate() {
+                    if i > 0 {
+                        p(out, ",");
+                    }
+                    w(out, q);
+                }
+                p(out, ")");
+                w(out, "start");
+                mark_block(body, out, marks);
+                w(out, "end");
+            }
+            other => stmt_toks(other, out),
+        }
+    }
+}
+
+/// canonical text plus the byte offset at which every statement starts, in pre-order
+pub fn print_with_offsets(prog: &[S]) -> (String, Vec<usize>) {
+    let mut toks = Vec::new();
+    let mut marks = Vec::new();
+    mark_block(prog, &mut toks, &mut marks);
+    // byte offset of every token in the joined text
+    let text = join_toks(&toks);
+    let mut offs = Vec::with_capacity(toks.len() + 1);
+    let mut pos = 0usize;
+    for (i, t) in toks.iter().enumerate() {
+        if i > 0 && text.as_bytes().get(pos) == Some(&b' ') && !text[pos..].starts_with(&t.text) {
+            pos += 1;
+        }
+        debug_assert!(text[pos..].starts_with(&t.text));
+        offs.push(pos);
+        pos += t.text.len();
+    }
+    offs.push(text.len());
+    (text, marks.into_iter().map(|m| offs[m.min(offs.len() - 1)]).collect())
+}
+
+/// applies `f` to the `k`-th statement in pre-order; returns None if `f` declines
+pub fn replace_stmt(prog: &[S], k: usize, f: &dyn Fn(&S) -> Option<S>) -> Option<Vec<S>> {
+    fn go(b: &[S], k: usize, n: &mut usize, f: &dyn Fn(&S) -> Option<S>, done: &mut bool) -> Option<Vec<S>> {
+        let mut out = Vec::with_capacity(b.len());
+        for s in b {
+            let me = *n;
+            *n += 1;
+            if me == k {
+                out.push(f(s)?);
+                *done = true;
+                continue;
+            }
+            out.push(match s {
+                S::If(c, t, e) => {
+                    let t2 = go(t, k, n, f, done)?;
+                    let e2 = match e {
+                        Some(e) => Some(go(e, k, n, f, done)?),
+                        None => None,
+                    };
+                    S::If(c.clone(), t2, e2)
+                }
+                S::Loop(c, b) => S::Loop(c.clone(), go(b, k, n, f, done)?),
+                S::Block(b) => S::Block(go(b, k, n, f, done)?),
+                S::Func(name, ps, b) => S::Func(name.clone(), ps.clone(), go(b, k, n, f, done)?),
+                other => other.clone(),
+            });
+        }
+        Some(out)
+    }
+    let mut n = 0;
+    let mut done = false;
+    let r = go(prog, k, &mut n, f, &mut done)?;
+    if done { Some(r) } else { None }
+}
